@@ -43,7 +43,7 @@ ALPH = ["a", "*", "?", "\\", " ", "%", "-", "1"]
 BOUNDS = {
     "values": f"strings of length <= 2 (quick) / <= 3 (thorough) over {ALPH!r} in 18 detection shapes (single value, lists, |all, |re (+flags), keywords, lists of maps, single-element list, several modifiers, null / number / bool, base64offset, cidr, windash, exists, compare, fieldref, expand, cased)",
     "metadata": "16 metadata variants (dates in both spellings, status, level, tags, related, references, author, fields, falsepositives, scope, taxonomy, custom attributes, name)",
-    "after transformation": "10 transformations x 16 rule shapes",
+    "after transformation": "15 transformations (incl. several one-to-many mapped fields, regex, hashes_fields) x 21 rule shapes (incl. encoding modifiers, windash, cased, regular expression with flag, Hashes)",
     "correlations/filters": "8 types x aliases x group-by x generate x percentile {0, 90} ; extended conditions ; 4 filter shapes",
     "outside": "YAML text with symbolic strings (documents are dumped with yaml.safe_dump per path); longer values",
 }
@@ -163,11 +163,18 @@ TRANSFORMS = [
     {"type": "set_value", "value": "x", "field_name_conditions": [{"type": "include_fields", "fields": ["g"]}]},
     {"type": "case", "method": "upper"},
     {"type": "field_name_mapping", "mapping": {None: "msg"}},
+    {"type": "field_name_mapping", "mapping": {"f": ["x", "y"], "g": ["u", "w"]}},
+    {"type": "regex"},
+    {"type": "regex", "method": "plain"},
+    {"type": "hashes_fields", "valid_hash_algos": ["MD5", "SHA1"], "field_prefix": "File"},
+    {"type": "field_name_mapping", "mapping": {"f": ["x", "y"]}},
 ]
 TSHAPES = [
     {"f": "v"}, {"f": "v", "g": "ww"}, {"f": ["v", "u"]}, {"f|contains|all": ["v", "uu"], "g|contains|all": "ww"}, {"f|contains|all": ["v", "uu"], "g|contains|all": ["ww", "zz"]},
     {"f|contains|all": "vv", "g|contains|all": "ww", "h|contains|all": "yy"}, ["v", "kk"], [{"f": "v"}, {"g": "ww"}], {"f|startswith": "v", "g": 5}, {"f|re": "v.*", "g|fieldref": "f"},
     {"f|contains": "v", "g|contains": "v"}, {"f": None, "g": "ww"},
+    {"f|base64": "vv"}, {"f|wide|base64offset|contains": "vv"}, {"f|windash|contains": "-v"}, {"f|cased": "Vv", "g|re|i": "a.b"},
+    {"Hashes|contains|all": ["MD5=4fae81eb7018069e75a087c38af783df", "SHA1=6a4b7de61d9c29d5b2e0ca8a4a2e5a4f8a9b0c1d"], "Hash": "4fae81eb7018069e75a087c38af783df"},
     {"f": ["v", "u"], "g": "ww"}, {"f|contains": "ww", "g|contains": ["v", "u"]}, {"f": ["v", "u"], "g": ["ww", "zz"]}, {"f": ["v", "u"], "g": "ww", "h": "yy"},
 ]
 
@@ -193,6 +200,10 @@ def check_transformed(ti: int, si: int) -> bool:
     except Exception as e:  # the written dict is not even a loadable document
         return False
     return q1 == q2
+
+
+def c06b_concrete(ti: int, si: int) -> bool:
+    return check_transformed(ti, si)
 
 
 def c06b_transformed(ti: int, si: int) -> bool:
